@@ -47,7 +47,7 @@ META = {'design_ref': 'DESIGN.md section 7 / C06',
                'C06_instance_no_leak / C06_instance_retransmission_same_id are the same statements for the concrete executed model (Engine/Instance.v), with '
                'the component hypotheses discharged. The same statements are judged on every history by the monitor mon_c06 (ids on the wire unique among '
                'in-flight operations, non-zero, nothing reserved when no operation is incomplete) mon_c06_retx (a DUP publish / PUBREL carries the identifier '
-               'its operation was transmitted with earlier in the session) and mon_c06_reserved (after every call the reservation table still gives a '
+               'its operation was transmitted with earlier in the session) mon_c06_sent_reserved (604: an id-bearing packet whose identifier is not reserved after the call that emitted it must be explained by a completion in that same call) and mon_c06_reserved (after every call the reservation table still gives a '
                'transmitted, incomplete publish its identifier), with the cursor preset near 65535 in 15% of the histories so that wrap-around is exercised.',
  'technique': 'machine-checked proof in Coq over the engine model + lock-step correspondence of the extracted model with the implementation + extracted '
               'monitors on the implementation trace'}
